@@ -99,7 +99,25 @@ func init() {
 				if !ok || fd.Body == nil {
 					continue
 				}
-				isCtxSel := func(e ast.Expr) bool {
+				// source ranges of nested control structures: a write inside one of them is conditional
+			type span struct{ lo, hi int }
+			var nested []span
+			ast.Inspect(fd.Body, func(n ast.Node) bool {
+				switch n.(type) {
+				case *ast.IfStmt, *ast.ForStmt, *ast.RangeStmt, *ast.SwitchStmt, *ast.TypeSwitchStmt, *ast.SelectStmt, *ast.FuncLit:
+					nested = append(nested, span{int(n.Pos()), int(n.End())})
+				}
+				return true
+			})
+			where := func(n ast.Node) string {
+				for _, sp := range nested {
+					if int(n.Pos()) >= sp.lo && int(n.End()) <= sp.hi {
+						return "conditional: "
+					}
+				}
+				return ""
+			}
+			isCtxSel := func(e ast.Expr) bool {
 					sel, ok := e.(*ast.SelectorExpr)
 					return ok && ctxField[sel.Sel.Name] && (src(sel.X) == "p" || src(sel.X) == "p.interp")
 				}
@@ -108,12 +126,12 @@ func init() {
 					case *ast.AssignStmt:
 						for _, l := range x.Lhs {
 							if isCtxSel(l) {
-								writes = append(writes, [2]string{fd.Name.Name, c15Norm(src(x))})
+								writes = append(writes, [2]string{fd.Name.Name, where(x) + c15Norm(src(x))})
 							}
 						}
 					case *ast.IncDecStmt:
 						if isCtxSel(x.X) {
-							writes = append(writes, [2]string{fd.Name.Name, c15Norm(src(x))})
+							writes = append(writes, [2]string{fd.Name.Name, where(x) + c15Norm(src(x))})
 						}
 					case *ast.CallExpr:
 						if sel, ok := x.Fun.(*ast.SelectorExpr); ok && (sel.Sel.Name == "checkContext" || sel.Sel.Name == "checkContextNow") {
@@ -124,7 +142,7 @@ func init() {
 				})
 			}
 		}
-		s += "/-- every write to ctxOps / checkCtx / ctx / ctxDone in package interp: (function, statement) -/\n"
+		s += "/-- every write to ctxOps / checkCtx / ctx / ctxDone in package interp: (function, statement); a statement inside an if / for / switch / select / function literal is prefixed with `conditional: ` -/\n"
 		s += c15Pairs("ctxFieldWrites", writes)
 		s += "/-- every call of checkContext / checkContextNow in package interp: (calling function, callee) -/\n"
 		s += c15Pairs("pollCallSites", calls)
